@@ -375,10 +375,15 @@ def gen_model(rng: core.Rng, idx: int) -> Dict[str, Any]:
                 falsy[n] = ["len", rng.choice(lens)]
             else:
                 falsy[n] = ["bool", rng.choice(bools)]
+    # frozen dataclasses: a whole hierarchy at a time (dataclasses forbid mixing), not the alternatively mapped one
+    def root_of(x):
+        return root_of(base[x]) if base[x] else x
+    frozen_roots = {n for n in names if base[n] is None and not (altm and n == names[0]) and rng.chance(0.3)}
+    frozen = [n for n in names if root_of(n) in frozen_roots]
     order = list(names)
     rng.shuffle(order)      # the order in which the classes are handed to ClassDiagram / ORMatic: any order (280300b orders the output)
     return {"idx": idx, "names": names, "base": base, "own": own, "required": required, "falsy": falsy, "umid": umid, "order": order,
-            "alt": names[0] if altm else None}
+            "alt": names[0] if altm else None, "frozen": frozen}
 
 
 def model_source(md) -> str:
@@ -389,8 +394,9 @@ def model_source(md) -> str:
     for n in md["names"]:
         parent = md["base"][n]
         u = md.get("umid", {}).get(n)
+        deco = "@dataclass(eq=False, frozen=True)" if n in md.get("frozen", []) else "@dataclass(eq=False)"
         if u:
-            out.append("@dataclass(eq=False)")
+            out.append(deco)
             out.append(f"class {u['name']}({parent}):        # NOT mapped: never handed to ORMatic")
             for f, _k, t in u["fields"]:
                 out.append(f"    {f}: {t} = {dflt[t]}")
@@ -398,7 +404,7 @@ def model_source(md) -> str:
                 out.append("    pass")
             out += ["", ""]
             parent = u["name"]
-        out.append("@dataclass(eq=False)")
+        out.append(deco)
         out.append(f"class {n}({parent}):" if parent else f"class {n}:")
         for f, kind, t in md["own"][n]:
             if kind == "scalar":
@@ -494,6 +500,7 @@ def install_model(md, workdir) -> None:
         extra = [alt + "Mapping"]
     c04.CLASS_ID = {n: i + 1 for i, n in enumerate(names + extra + ["_Holder"])}
     c04.ROOT_KINDS = list(names)
+    c04.FROZEN = set(md.get("frozen", []))
     # truthiness is inherited: a class is falsy-capable through the nearest definition on its MRO
     c04.FALSY_FIELDS = {}
     for n in names:
@@ -574,7 +581,7 @@ def _worker_main(argv) -> int:
     def failing(m):
         res = m["res"]
         if "exc" in res:
-            return True
+            return not (m["ft"].get("frozen_with_refs") and res["exc"].startswith("FrozenInstanceError"))
         if res.get("py_iso") is None:
             return False
         return prop == "C04" or not m["ft"]["repeated_elems"]
@@ -633,6 +640,9 @@ def prepare_case(d: dict, org: str, sc, model_ok: bool) -> Dict[str, Any]:
 def decide(rep: Report, m: Dict[str, Any], v, model_ok: bool, inst: Dict[str, int], tallies: Dict[str, int], bad: list) -> None:
     res, ft = m["res"], m["ft"]
     if "exc" in res:
+        if inst.get("_c04e_open") and ft.get("frozen_with_refs") and res["exc"].startswith("FrozenInstanceError"):
+            inst["C04-e"] += 1      # python-level class rule: frozen-ness is not part of the heap model
+            return
         bad.append((m, f"exception {res['exc']}"))
         return
     code, frag, wf = v[0], v[1], v[2]
@@ -855,7 +865,7 @@ def run(tier: str, seed: int, replay=None) -> int:
         return rep.finish()
     codes = dict(zip(idx, vals))
 
-    inst = {"C05-b": 0, "C04-a": 0, "C04-c": 0,
+    inst = {"C05-b": 0, "C04-a": 0, "C04-c": 0, "C04-e": 0, "_c04e_open": any(f.fid == "C04-e" and f.kind == "open" for f in findings),
             "_c04c_open": any(f.fid == "C04-c" and f.kind == "open" for f in findings)}
     tallies = {"in_F": 0, "stale": 0}
     bad: List[Tuple[dict, str]] = []
@@ -866,6 +876,7 @@ def run(tier: str, seed: int, replay=None) -> int:
     dist["in_F"] = tallies["in_F"]
     rep.extra["distribution"] = {"dataset": dist, "generated_models": gdist, "generated_model_info": gen_info}
     inst.pop("_c04c_open", None)
+    inst.pop("_c04e_open", None)
     rep.extra["known_finding_instances"] = inst
     rep.extra["schema"] = {"tables": len(sc["tables"]), "association_tables": len(sc["assoc"]), "selfref_tags": sc["selfref"]}
     rep.samples = [{"case": m["descr"], "features": m["ft"], "loaded_via": m["res"].get("via"), "origin": m["origin"]} for m in metas[:: max(1, len(metas) // 5)]][:5]
@@ -910,7 +921,8 @@ def run(tier: str, seed: int, replay=None) -> int:
                 elif f.kind == "open":
                     rep.note("known finding C04-c: the scenario no longer yields a wrong object (repaired, or the address was not reused)")
                 continue
-            still = any(m["origin"] == f.witness and m.get("code") == 2 for m in metas)
+            still = any(m["origin"] == f.witness and (m.get("code") == 2 or (f.cls == "K_frozen" and str(m["res"].get("exc", "")).startswith("FrozenInstanceError")))
+                        for m in metas)
             if f.kind == "open":
                 if still:
                     rep.known(f)
